@@ -8,7 +8,7 @@ DEFAULTS = dict(
     p_sel=.4, p_merge=.2, p_cycle=.12, p_multi_start=.15, p_multi_choice=.1,
     p_opt_existing=.15, p_single_opt=.06, p_dup_id=0.0,
     n_incompat=(0, 2), p_incompat=.5,
-    p_constraint=0.0, n_conn=(0, 0), p_grp=.3, p_excl=.3, p_conn_cond=.6, max_side=3, max_side_total=5,
+    p_constraint=0.0, n_conn=(0, 0), p_grp=.3, p_excl=.3, p_conn_cond=.6, p_side_cond=0., max_side=3, max_side_total=5,
     n_dv=(0, 0), p_dv_cond=.6, p_dv_link=.0, n_metric=(0, 0),
     exotic=False, allow=(), forbid=(),
 )
@@ -143,9 +143,12 @@ def _grow(rnd, o):
             cons.append({'type': rnd.choice(S.CON_TYPES), 'choices': chosen})
 
     # connection choices
+    side_cond = [False]
     for ik in range(rnd.randint(*o['n_conn'])):
         def mk_side(prefix, n_max=3):
             entries, names = [], []
+            # a whole side hanging under conditional nodes (so that it can be completely absent in a scenario)
+            side_cond[0] = o['p_side_cond'] > 0 and rnd.random() < o['p_side_cond']
             n = rnd.randint(1, n_max)
             i = 0
             while i < n:
@@ -173,7 +176,7 @@ def _grow(rnd, o):
             perm = _perm(start, edges)
             pool_c = [n for n in named if n not in perm]
             pool_p = [n for n in named if n in perm]
-            if pool_c and rnd.random() < o['p_conn_cond']:
+            if pool_c and (side_cond[0] or rnd.random() < o['p_conn_cond']):
                 add_edge(rnd.choice(pool_c), c)
             else:
                 add_edge(rnd.choice(pool_p or named), c)
@@ -194,7 +197,8 @@ def _grow(rnd, o):
         perm = _perm(start, edges)
         pool = [n for n in named if (n not in perm) == (rnd.random() < o['p_dv_cond'])] or named
         if rnd.random() < .5:
-            d = new('dv', 'D', bounds=rnd.choice([[0, 1], [-2.5, 4.0], [10, 20]]))
+            d = new('dv', 'D', bounds=rnd.choice([[0, 1], [-2.5, 4.0], [10, 20], [-1, 1], [-1.5, 0.5], [-3, -1],
+                                                  [0.5, 2]]))
         else:
             d = new('dv', 'D', options=['o%d' % i for i in range(rnd.randint(1, 4))])
         add_edge(rnd.choice(pool), d)
@@ -280,3 +284,34 @@ def pattern_key(p):
                 d[i] = [0]
         return sorted(d.items())
     return [side(p.get('src_exists'), p.get('src_override')), side(p.get('tgt_exists'), p.get('tgt_override'))]
+
+
+def gen_replica(rnd):
+    """The same sub-architecture instantiated several times: k elements, each with a selection choice of the SAME
+    decision id over its OWN option nodes that carry the same display names ('label'); the choices differ only in
+    where they originate.  (Node ids stay unique; only what the library sees as node names repeats.)"""
+    k = rnd.randint(3, 5)
+    n_opts = rnd.randint(2, 3)
+    nodes = [{'id': 'Root', 'kind': 'named'}]
+    edges, sel = [], []
+    with_child = rnd.random() < .5
+    for i in range(k):
+        e = 'E%d' % i
+        nodes.append({'id': e, 'kind': 'named'})
+        edges.append(['Root', e])
+        opts = []
+        for j in range(n_opts):
+            o = '%s_T%d' % (e, j)
+            nodes.append({'id': o, 'kind': 'named', 'label': 'Type%d' % j})
+            opts.append(o)
+        if with_child:
+            c = '%s_X' % e
+            nodes.append({'id': c, 'kind': 'named', 'label': 'Extra'})
+            edges.append([opts[0], c])
+        sel.append({'key': 'C%d' % i, 'id': 'Type', 'origin': e, 'options': opts})
+    sp = {'nodes': nodes, 'edges': edges, 'sel': sel, 'incompat': [], 'constraints': [], 'conn': [], 'start': ['Root']}
+    if rnd.random() < .4:
+        nodes.append({'id': 'P', 'kind': 'named'})
+        nodes.append({'id': 'Q', 'kind': 'named'})
+        sel.append({'key': 'CZ', 'id': 'Zed', 'origin': 'Root', 'options': ['P', 'Q']})
+    return sp
